@@ -74,6 +74,10 @@ def gen_cases(tier, seed):
         flag = FLAGS[i % 6]
         mode = i % 3   # 0: plain+flag, 1: preimage+flag arg, 2: preimage, flag parsed from msg
         yield "api", {"key": hex(key), "msg": rand_bytes(rng, ln).hex(), "flag": flag, "mode": mode, "both_forms": i % 5 == 0}
+    # (a') the same through the command line: `bits sig <msg> --sighash .. [--anyone-can-pay] [--msg-preimage]`
+    for i in range(24 if tier == "quick" else 300):
+        yield "cli_sig", {"key": hex(rng.choice(keys) if i % 3 == 0 else rng.randrange(1, N)), "msg": rand_bytes(rng, rng.choice([0, 1, 32, 100])).hex(),
+                          "flag": FLAGS[i % 6], "pre": i % 2 == 1, "fmt": ["hex", "raw", "bin"][i % 3]}
     # (c) nonce reuse histories
     for i in range(6 if tier == "quick" else 60):
         yield "reuse", {"pool_seed": rng.getrandbits(32), "nk": 3, "nm": 3}
@@ -89,7 +93,7 @@ def gen_cases(tier, seed):
 
 
 def required(tier):
-    return {"api.signed": 300, "scripted.signed": 300, "class.s_short_topbit": 20, "class.digest_ge_n": 10,
+    return {"api.signed": 300, "cli.signed": 20, "scripted.signed": 300, "class.s_short_topbit": 20, "class.digest_ge_n": 10,
             "class.retry_s0": 1, "class.r_top_80": 3, "class.r_top_00": 3, "class.r_top_7f": 3, "class.inner_retry_draw0": 5, "reuse.pairs_checked": 100,
             "small.signed": 10000, "small.retry_branch": 10,
             "contract:sign.range_low_s": 1000, "contract:der_encode_sig.strict_roundtrip": 300,
@@ -279,6 +283,38 @@ def run_case(kind, params, ctx):
             ctx.count("api.lib_verified")
             if ok != "OK":
                 ctx.violation(f"lib-verify-rejects/sig_verify/mode{mode}", f"sig_verify(compressed={comp}) -> {ok!r}")
+        return
+    if kind == "cli_sig":
+        from . import c20
+        d = int(params["key"], 16)
+        msg = bytes.fromhex(params["msg"])
+        flag, pre, fmt = params["flag"], params["pre"], params["fmt"]
+        signed = msg + flag.to_bytes(4, "little")
+        argv = ["sig", (signed if pre else msg).hex(), "--sighash", {1: "all", 2: "none", 3: "single"}[flag & 3]] + (["--anyone-can-pay"] if flag & 0x80 else []) + \
+               (["--msg-preimage"] if pre else []) + ["-1" + c20.FMT_FLAG[fmt], "-0x"]
+        r = c20.run_main(argv, c20.rep(k32(d), fmt))
+        if r["exit"] or r["ret"] is not None:
+            ctx.violation(f"cli-sig/fails/{'pre' if pre else 'plain'}", f"bits {' '.join(argv)} -> {r['exit'] or r['ret']}")
+            return
+        try:
+            out = bytes.fromhex(r["out"].decode().strip())
+        except Exception:
+            ctx.violation("cli-sig/output-not-hex", f"{r['out'][:80]!r}")
+            return
+        ctx.count("cli.signed")
+        if not out or out[-1] != flag:
+            ctx.violation(f"cli-sig/flag-suffix/{'pre' if pre else 'plain'}", f"last byte {out[-1:].hex()} != requested {flag:#x} for bits {' '.join(argv[2:])}")
+        rs = rder.parse_strict(out[:-1])
+        if rs is None:
+            ctx.violation("cli-sig/der-not-strict", out.hex())
+            return
+        check_signature(ctx, "cli", d, int.from_bytes(h256(signed), "big"), rs[0], rs[1], out[:-1], check_lib_verify=False)
+        # and the CLI verifier on what the CLI signer produced
+        P = secp.pub(d)
+        rv = c20.run_main(["sig", (signed if pre else msg).hex(), "--verify", "--signature", out.hex()] + (["--msg-preimage"] if pre else []) + ["-1x"],
+                          c20.rep(secp.sec1_encode(P, d % 2 == 0), "hex"))
+        if rv["out"].strip() != b"OK":
+            ctx.violation(f"cli-sig/verify-rejects-own-signature/{'pre' if pre else 'plain'}", f"bits sig --verify printed {rv['out'][:80]!r} (ret {rv['ret']!r})")
         return
     if kind == "reuse":
         rng = rng_for("C01-reuse", params["pool_seed"])
